@@ -32,10 +32,14 @@ Definition obs_idx_item (ie : Index * expr) : obs := OList [OZ (ix_row (fst ie))
 Definition obs_idx_items (r : res (list (Index * expr))) : obs := wrap_r r (fun l => OList (map obs_idx_item l)).
 
 (* ---------- one read-only iterator ---------- *)
+(* 3 = the rest through Iterator::fold (for_each, sum, ...), 4 = through rfold (rev().for_each ...): the iterator is consumed
+   by value, every remaining item is seen once, front to back resp. back to front; the script ends there *)
 Fixpoint single_ro {X} (show : X -> obs) (l : list X) (script : list Z) : list obs :=
   match script with
   | [] => []
   | w :: t =>
+    if w =? 3 then map (fun e => OSome (show e)) l else
+    if w =? 4 then map (fun e => OSome (show e)) (rev l) else
     let '(l', r) := deque_cmd l w in
     match r with
     | Popped (Some e) => OSome (show e) :: single_ro show l' t
@@ -109,11 +113,24 @@ Section Mut.
 Variable c : cfg.
 Variable f : expr -> expr.
 
+(* every remaining item in the given order: its element is replaced by f(element) *)
+Fixpoint drain_mut {X} (posof : X -> Z) (show : X -> expr -> obs) (data : list expr) (items : list X) : list expr * list obs :=
+  match items with
+  | [] => (data, [])
+  | x :: t =>
+    match znth_opt (posof x) data with
+    | Some e => let '(d', os) := drain_mut posof show (zupd data (posof x) (f e)) t in (d', OSome (show x e) :: os)
+    | None => (data, [OUB UBPtr])
+    end
+  end.
+
 Fixpoint single_mut {X} (posof : X -> Z) (show : X -> expr -> obs) (data : list expr) (items : list X) (script : list Z)
   : list expr * list obs :=
   match script with
   | [] => (data, [])
   | w :: t =>
+    if w =? 3 then drain_mut posof show data items else
+    if w =? 4 then drain_mut posof show data (rev items) else
     let '(items', r) := deque_cmd items w in
     match r with
     | Popped (Some x) =>
